@@ -31,6 +31,10 @@ pub struct Case {
     pub publish_pct: Option<u8>,
     /// what the server feeds: heartbeats or other frames (any traffic counts)
     pub feed_other: bool,
+    /// a slow server: Connection.OpenOk arrives 1.1-1.6 heartbeat intervals after Connection.Open
+    /// (the timers run from Tune on, so at least one timer deadline passes during the handshake)
+    #[serde(default)]
+    pub slow_open_pct: Option<u8>,
 }
 
 const LATE: Duration = Duration::from_millis(900);
@@ -44,6 +48,10 @@ pub fn exec(c: &Case) -> Outcome {
     };
     let scfg = ServerCfg {
         heartbeat: c.server_hb as u16,
+        open_ok_delay_ms: match c.slow_open_pct {
+            Some(p) if h > 0 => h * 1000 * (110 + p as u64 % 51) / 100,
+            _ => 0,
+        },
         ..Default::default()
     };
     let mut sess = open_session(&ccfg, scfg, vec![], AutoBroker::new(1));
@@ -225,6 +233,9 @@ pub fn exec(c: &Case) -> Outcome {
     if c.publish_pct.is_some() {
         o.labels.push("publishing-client".into());
     }
+    if c.slow_open_pct.is_some() {
+        o.labels.push("slow-open-ok".into());
+    }
     if heartbeats_sent > 0 {
         o.labels.push("client-heartbeats-seen".into());
     }
@@ -240,14 +251,16 @@ fn strat(t: Tier) -> BoxedStrategy<Case> {
         prop_oneof![1 => Just(None), 1 => any::<u16>().prop_map(Some)],
         prop_oneof![1 => Just(None), 1 => any::<u8>().prop_map(Some)],
         any::<bool>(),
+        prop_oneof![3 => Just(None), 1 => any::<u8>().prop_map(Some)],
     )
-        .prop_map(|(client_hb, server_hb, feed_pct, silent_after_ms, publish_pct, feed_other)| Case {
+        .prop_map(|(client_hb, server_hb, feed_pct, silent_after_ms, publish_pct, feed_other, slow_open_pct)| Case {
             client_hb,
             server_hb,
             feed_pct,
             silent_after_ms,
             publish_pct,
             feed_other,
+            slow_open_pct,
         })
         .boxed()
 }
@@ -255,7 +268,7 @@ fn strat(t: Tier) -> BoxedStrategy<Case> {
 pub fn parts() -> Vec<Box<dyn PartDyn>> {
     vec![Box::new(Part::<Case> {
         name: "timing",
-        rule: "client and server heartbeat options from {0, 1, 2 (3 in thorough), 60} (negotiated = minimum, 0 if either is 0), the server sending a heartbeat or another frame every 35-95 % of the interval either for the whole window (3h+1 s) or only until a generated moment after which it is silent, the client idle or publishing every 20-150 % of the interval; all cases of a run execute concurrently; oracle on the real clock: longest gap between client writes <= h + 0.9 s, a fed connection lives the whole window and closes Ok, silence ends the connection with MissedServerHeartbeats not before 2h - 0.05 s and (confirmed by re-execution) not after 2h + 0.9 s after the last server byte, h = 0 => no heartbeat frame and no failure in 2.5 s; every executed case is non-trivial; distinct by case hash",
+        rule: "client and server heartbeat options from {0, 1, 2 (3 in thorough), 60} (negotiated = minimum, 0 if either is 0), the server sending a heartbeat or another frame every 35-95 % of the interval either for the whole window (3h+1 s) or only until a generated moment after which it is silent, the client idle or publishing every 20-150 % of the interval, one case in four against a slow server whose OpenOk arrives 1.1-1.6 intervals after Open (a timer deadline passes during the handshake); all cases of a run execute concurrently; oracle on the real clock: longest gap between client writes <= h + 0.9 s, a fed connection lives the whole window and closes Ok, silence ends the connection with MissedServerHeartbeats not before 2h - 0.05 s and (confirmed by re-execution) not after 2h + 0.9 s after the last server byte, h = 0 => no heartbeat frame and no failure in 2.5 s; every executed case is non-trivial; distinct by case hash",
         cases: |t| t.pick(40, 384),
         threads: 64,
         strategy: strat,
